@@ -22,6 +22,8 @@ func init() {
 			"(5) waiter-release: every goroutine that waits on a sync.Cond in `for !quit && ... { Wait() }` is released on every arm of the spawner's select: the arm either receives the goroutine's done channel or sets quit under the lock and Broadcasts; " +
 			"(6) polls-closed: PollRecords and shareConsumer.poll select on the client-lifetime context and return NewErrFetch(ErrClientClosed) there; PollFetches delegates to PollRecords; " +
 			"(7) close-sweep: failBufferedRecords sweeps every topic's full `partitions` list (not writablePartitions) under recBuf.mu with the caller's error and fails all unknown-topic records; writablePartitions is read only by the partition picker and the metadata merge. " +
+			"no iteration of the topic loop or of the partition loop of failBufferedRecords can skip the sweep (must-pass search from the loop body to the loop head: a `continue` or a guard around failAllRecords is reported); the client-closed check that pairs with the sweep (non-blocking select on cl.ctx.Done() -> promiseRecord(pr, ErrClientClosed); return true) is inside recBuf.bufferRecord with recBuf.mu held and dominates every tryBuffer call and every store to recBuf.batches (own type-resolved restatement of C01's close-sweep `bufferRecord#closed-check-before-append`: a check-then-act guard elsewhere lets a record be appended after the sweep); " +
+			"(8) result-channel-once: every function started by consumerSession.listOrEpoch with `go f(..., results)` is counted by an `issued++` directly before the go statement, uses its results parameter only as the target of sends in its own body, sends on every path to a return and never twice on one path; the worker receives in `for received != issued { <-results; received++ }` (one receive per issued goroutine, no context arm). " +
 			"workLoop/ring engines themselves are covered by C30 and only referenced here.",
 		NotDecided: "bounded wall-clock time of Close, termination of callees that are not loops of kgo (net.Conn I/O, user callbacks and hooks, request round trips once the context is cancelled), CloseAllowingRebalance vs. a user who never allows rebalances, and absence of leaked goroutines under all interleavings (liveness/schedule properties); parking operations are enumerated only in the body of each go target and in-scope loop, not in their callees.",
 		Run:        runC13,
@@ -52,6 +54,9 @@ func runC13(c *Ctx) {
 	c13gos(c, m)
 	c13polls(c, m)
 	c13sweep(c, m)
+	c13sweepEveryIteration(c, m, "close-sweep", "records buffered in the skipped topic/partition are never failed at Close: their promises never fire and Flush/ProduceSync hang")
+	c13closedCheckInBufferRecord(c, m)
+	c13resultChannels(c, m)
 }
 
 // ---------------------------------------------------------------------------
